@@ -139,14 +139,11 @@ Definition t2j_doc (dlex : Z -> list Z) (o : Z) (D : defs) (n : nat) (t : ty) (v
    integer lexemes by exact value, every other number through the correctly rounded dec2f64 (bit equality: the sign
    of zero counts), strings / keys / booleans exactly, arrays and objects member by member in order. *)
 Definition num_same (a b : list Z) : bool :=
-  if lex_is_plain_int a && lex_is_plain_int b then
+  if zlist_eqb a b then true     (* the same lexeme denotes the same number *)
+  else if lex_is_plain_int a && lex_is_plain_int b then
     match parse_int a, parse_int b with Some x, Some y => x =? y | _, _ => false end
   else if lex_is_plain_int a || lex_is_plain_int b then false
   else match lex2f64 a, lex2f64 b with Some x, Some y => x =? y | _, _ => false end.
-
-(* a string holding a number lexeme (Int642String, api.js_conv) is compared as the number it spells *)
-Definition str_same (a b : list Z) : bool :=
-  zlist_eqb a b || (num_okb a && num_okb b && num_same a b).
 
 Fixpoint json_same (a b : json) {struct a} : bool :=
   match a, b with
